@@ -435,6 +435,231 @@ func c14CRSDeterminism(c *Ctx, set c14Set) {
 	}
 }
 
+// ---------------------------------------------------------------------------------------------
+// CRS rewound with Reset()
+
+// c14CRSSets: rings for the CRS probes only: small degrees (N*8 bytes per row far below any read-ahead
+// size) and primes just above a power of two, where the uniform sampler rejects almost every second
+// draw, so that the number of bytes consumed from the CRS is irregular.
+var c14CRSSetsCache []c14Set
+
+func c14CRSSets() []c14Set {
+	if c14CRSSetsCache == nil {
+		mk := func(name string, logN int, q, p []uint64) c14Set {
+			params, err := rlwe.NewParametersFromLiteral(rlwe.ParametersLiteral{LogN: logN, Q: q, P: p, NTTFlag: true})
+			if err != nil {
+				panic(fmt.Errorf("c14 crs params %s: %w", name, err))
+			}
+			return c14Set{name: name, params: params, n: 1 << logN, nRing: 1 << logN, q: q, p: p}
+		}
+		for _, logN := range []int{4, 5, 7, 9, 10} {
+			twoN := uint64(2) << uint(logN)
+			c14CRSSetsCache = append(c14CRSSetsCache,
+				mk(fmt.Sprintf("crsRej46N%d", 1<<logN), logN, []uint64{0x200000440001, c16PrimeAbove(35, twoN, 0)}, []uint64{c16PrimeAbove(50, twoN, 0)}),
+				mk(fmt.Sprintf("crsRej30N%d", 1<<logN), logN, []uint64{c16PrimeAbove(29, twoN, 0), c16PrimeAbove(29, twoN, 1), c16PrimeAbove(44, twoN, 0)}, nil))
+		}
+	}
+	return c14CRSSetsCache
+}
+
+type c14CRSStep struct {
+	kind int
+	cfg  c14Evk
+}
+
+// c14CRSRun makes the SampleCRP calls of order on crs and returns the raw reference polynomials.
+func c14CRSRun(params rlwe.Parameters, crs *sampling.KeyedPRNG, order []c14CRSStep) []string {
+	ckg := multiparty.NewPublicKeyGenProtocol(params)
+	evkg := multiparty.NewEvaluationKeyGenProtocol(params)
+	rkg := multiparty.NewRelinearizationKeyGenProtocol(params)
+	gkg := multiparty.NewGaloisKeyGenProtocol(params)
+	cks, _ := multiparty.NewKeySwitchProtocol(params, ring.DiscreteGaussian{Sigma: 3.2, Bound: 19.2})
+	var out []string
+	for _, st := range order {
+		switch st.kind {
+		case 0:
+			out = append(out, c14RawQP(ckg.SampleCRP(crs).Value))
+		case 1:
+			out = append(out, c14RawCRP(evkg.SampleCRP(crs, st.cfg.params()).Value))
+		case 2:
+			out = append(out, c14RawCRP(rkg.SampleCRP(crs, st.cfg.params()).Value))
+		case 3:
+			out = append(out, c14RawCRP(gkg.SampleCRP(crs, st.cfg.params()).Value))
+		case 4:
+			out = append(out, Mat(RawRows(cks.SampleCRP(st.cfg.lq, crs).Value)))
+		}
+	}
+	return out
+}
+
+// c14CRSReset: a party that REWINDS its CRS with Reset() and a party that creates the CRS from the same
+// key make the same SampleCRP calls and must obtain the same reference polynomials, whatever was
+// sampled (or read) before the rewind.
+func c14CRSReset(c *Ctx, set c14Set) {
+	params := set.params
+	key := c.rng.Bytes(32)
+	cfgs := c14EvkConfigs(set)
+	var seq []c14CRSStep
+	for i := 0; i < c.Scale(4, 10); i++ {
+		seq = append(seq, c14CRSStep{c.rng.Intn(5), cfgs[c.rng.Intn(len(cfgs))]})
+	}
+	seq[0].kind = 0 // the collective public key first, as in a session
+	fresh := func() *sampling.KeyedPRNG {
+		p, err := sampling.NewKeyedPRNG(key)
+		if err != nil {
+			panic(err)
+		}
+		return p
+	}
+	wantSteps := c14CRSRun(params, fresh(), seq)
+	want := strings.Join(wantSteps, "#")
+	detail := ""
+	fail := func(f string, a ...interface{}) {
+		if detail == "" {
+			detail = strings.ReplaceAll(fmt.Sprintf(f, a...), " ", "_")
+		}
+	}
+	cases := 0
+	// (a) SampleCRP ..., Reset, SampleCRP ... for every prefix of the sequence before the rewind
+	for pre := 0; pre <= len(seq); pre++ {
+		crs := fresh()
+		c14CRSRun(params, crs, seq[:pre])
+		crs.Reset()
+		if got := strings.Join(c14CRSRun(params, crs, seq), "#"); got != want {
+			fail("after %d SampleCRP calls and Reset() the CRS gives other reference polynomials than a fresh CRS from the same key", pre)
+		}
+		cases++
+	}
+	// (b) raw reads of every residue before the rewind (and two rewinds in a row, and a rewind of a fresh CRS)
+	lens := []int{1, 7, 8, 63, 64, 65, 1000, 1023, 1024, 1025, 2048, 4095, 4096, 4097, 5000, 8191, 8192, 8 * set.nRing, 8*set.nRing + 3, 1 + c.rng.Intn(20000)}
+	for _, k := range lens {
+		crs := fresh()
+		buf := make([]byte, k)
+		if _, err := crs.Read(buf); err != nil {
+			fail("Read(%d bytes): %v", k, err)
+		}
+		crs.Reset()
+		if k%2 == 0 {
+			crs.Reset()
+		}
+		if got := strings.Join(c14CRSRun(params, crs, seq[:2]), "#"); got != strings.Join(wantSteps[:2], "#") {
+			fail("after Read(%d bytes) and Reset() the CRS gives other reference polynomials than a fresh CRS from the same key", k)
+		}
+		// the stream itself: first bytes after a rewind = first bytes of a fresh generator
+		crs.Reset()
+		x, y := make([]byte, 96), make([]byte, 96)
+		_, _ = crs.Read(x)
+		_, _ = fresh().Read(y)
+		if Hex(x) != Hex(y) {
+			fail("after Reset() (preceded by Read(%d bytes) and SampleCRP calls) the first 96 bytes differ from a fresh generator's", k)
+		}
+		cases++
+	}
+	// (c) Reset in the middle, twice: run, Reset, run, Reset, run
+	crs := fresh()
+	for r := 0; r < 3; r++ {
+		if got := strings.Join(c14CRSRun(params, crs, seq), "#"); got != want {
+			fail("pass %d of run/Reset()/run gives other reference polynomials", r)
+		}
+		crs.Reset()
+		cases++
+	}
+	c.Probe("crs_reset_replays", fmt.Sprintf("set=%s steps=%d cases=%d", set.name, len(seq), cases), "C14-crs-reset", detail)
+}
+
+// c14CRSResetParties: party 0 keeps ONE CRS object for the whole session and rewinds it between the
+// protocols; the other parties create the CRS from the key for each protocol.  Every party generates
+// its share with ITS OWN reference polynomial; the collective keys must work.
+func c14CRSResetParties(c *Ctx, set c14Set, n int) {
+	params := set.params
+	key := c.rng.Bytes(32)
+	fresh := func() *sampling.KeyedPRNG {
+		p, err := sampling.NewKeyedPRNG(key)
+		if err != nil {
+			panic(err)
+		}
+		return p
+	}
+	keys := c14GenKeys(set, n)
+	own := fresh() // party 0's generator, rewound between protocols
+	cfg := c14Evk{set.maxQ(), set.maxP(), 0}
+	if set.maxP() < 0 {
+		cfg = c14Evk{set.maxQ(), -1, 16}
+	}
+	ep := cfg.params()
+	ckg := multiparty.NewPublicKeyGenProtocol(params)
+	gkg := multiparty.NewGaloisKeyGenProtocol(params)
+	galEl := params.GaloisElement(1)
+	detail := ""
+	for round := 0; round < 3; round++ {
+		// protocol 1: collective public key
+		crps := make([]multiparty.PublicKeyGenCRP, n)
+		for i := range crps {
+			if i == 0 {
+				crps[i] = ckg.SampleCRP(own)
+			} else {
+				crps[i] = ckg.SampleCRP(fresh())
+			}
+			if detail == "" && c14RawQP(crps[i].Value) != c14RawQP(crps[0].Value) {
+				detail = fmt.Sprintf("round_%d_cpk:_party_%d_(fresh_CRS_from_the_key)_and_party_0_(rewound_CRS)_hold_different_reference_polynomials", round, i)
+			}
+		}
+		agg := ckg.AllocateShare()
+		for i := 0; i < n; i++ {
+			sh := ckg.AllocateShare()
+			ckg.GenShare(keys.sk[i], crps[i], &sh)
+			if i == 0 {
+				agg = sh
+			} else {
+				ckg.AggregateShares(agg, sh, &agg)
+			}
+		}
+		pk := rlwe.NewPublicKey(params)
+		ckg.GenPublicKey(agg, crps[0], pk)
+		c14ProbeTag = fmt.Sprintf(" crs_rewound_by_party0 round=%d", round)
+		c14ProbePK(c, set, n, keys, pk)
+		c14ProbeTag = ""
+		own.Reset()
+		// protocol 2: a Galois key, again from the start of the CRS
+		gcrps := make([]multiparty.GaloisKeyGenCRP, n)
+		for i := range gcrps {
+			if i == 0 {
+				gcrps[i] = gkg.SampleCRP(own, ep)
+			} else {
+				gcrps[i] = gkg.SampleCRP(fresh(), ep)
+			}
+			if detail == "" && c14RawCRP(gcrps[i].Value) != c14RawCRP(gcrps[0].Value) {
+				detail = fmt.Sprintf("round_%d_gal:_party_%d_(fresh_CRS_from_the_key)_and_party_0_(rewound_CRS)_hold_different_reference_polynomials", round, i)
+			}
+		}
+		var gagg multiparty.GaloisKeyGenShare
+		ok := true
+		for i := 0; i < n; i++ {
+			sh := gkg.AllocateShare(ep)
+			if err := gkg.GenShare(keys.sk[i], galEl, gcrps[i], &sh); err != nil {
+				ok = false
+				break
+			}
+			if i == 0 {
+				gagg = sh
+			} else if err := gkg.AggregateShares(gagg, sh, &gagg); err != nil {
+				ok = false
+				break
+			}
+		}
+		if ok {
+			gk := rlwe.NewGaloisKey(params, ep)
+			if err := gkg.GenGaloisKey(gagg, gcrps[0], gk); err == nil && c14Baseline(c, set, cfg) {
+				c14ProbeTag = fmt.Sprintf(" crs_rewound_by_party0 round=%d", round)
+				c14ProbeGAL(c, set, n, cfg, keys, galEl, gk, false)
+				c14ProbeTag = ""
+			}
+		}
+		own.Reset()
+	}
+	c.Probe("crs_reset_parties_agree", fmt.Sprintf("set=%s N=%d rounds=3 protocols=cpk,gal", set.name, n), "C14-crs-reset", detail)
+}
+
 // c14CRSTie: the reference polynomials as a function of the CRS bytes.  A twin generator with the
 // same key provides the byte stream; the model replays the samplers (fresh 1024-byte buffers per
 // SampleCRP, rejection sampling under the per-prime mask) and also predicts the CRS position, checked
